@@ -72,6 +72,38 @@ def probe_gen(rng, max_depth=3, spaces_in_output=True, **kw):
     return ProbeGrammar(rng, variants, defs, outputs)
 
 
+def twin_gen(rng):
+    """several within-word expressions of the same shape (same transitions, literal ids by decreasing length) that differ
+    in how their values are spread over `||` levels, or in a command at the tail: candidates for sharing one table set"""
+    vals = ["aaa", "bb", "c", "dddd", "ee", "fff", "always", "never", "auto", "plain", "fancy"]
+    heads = ["--color=", "--style=", "--foo=", "--bar=", "--when=", "--mode="]
+    rng.shuffle(heads)
+    outputs = {}
+    variants = []
+    n = rng.randint(2, 4)
+    k = rng.randint(2, 3)
+    for i in range(n):
+        vs = rng.sample(vals, k)
+        op = rng.choice(["fb", "alt", "fb", "mixed"])
+        lits = [("lit", v, None) for v in vs]
+        if op == "mixed" and k >= 3:
+            tail = ("fb", [("alt", lits[:2]), lits[2]])
+        elif op == "mixed":
+            tail = ("fb", lits)
+        else:
+            tail = (op, lits)
+        if rng.random() < 0.25:
+            kk = len(outputs)
+            outputs[kk] = rng.choice(["alpha\nbeta\n", "k1\nk2\tdescr\n"])
+            tail = ("fb", [tail, ("cmd", f'__probe {kk} "$1" "$2"')]) if rng.random() < 0.5 else ("alt", [tail, ("cmd", f'__probe {kk} "$1" "$2"')])
+        word = ("sub", [("lit", heads[i], None), tail])
+        follow = rng.choice([None, ("lit", "next", None), ("lit", f"n{i}", None)])
+        variants.append(word if follow is None else ("seq", [word, follow]))
+    if rng.random() < 0.5:
+        variants = [("alt", variants)]
+    return ProbeGrammar(rng, variants, [], outputs)
+
+
 def vocabulary(pg):
     """literal texts, command candidates, and a few foreign / glob-looking words"""
     lits = []
